@@ -600,7 +600,9 @@ Definition scope_table : list (stmt * N * (N * N)) :=
    (prog_subrequest, 0, (mk_handle, tag_request_context));
    (prog_request_context_manual, 0, (mk_body, tag_request_context));
    (prog_wsgi_call, 0, (mk_handle, tag_request_context));
-   (prog_cfg_init, 0, (mk_body, tag_configurator))].
+   (prog_cfg_init, 0, (mk_body, tag_configurator));
+   (prog_bootstrap, 1, (mk_rootfactory, tag_request_context));
+   (prog_bootstrap_with, 0, (mk_rootfactory, tag_request_context))].
 Definition sc_prog (e : stmt * N * (N * N)) : stmt := fst (fst e).
 Definition sc_cls (e : stmt * N * (N * N)) : N := snd (fst e).
 (* inner: 2 = the inner moment is not on this path, 1 = it happens under the expected frame, 0 = it does not *)
